@@ -279,6 +279,64 @@ def _h_cmdcase():
     return fn
 
 
+# one well-formed argument string per registered command word (a word missing here is compared with no arguments);
+# {N} stands for a literal header whose size is a symbolic integer
+CASE_ARGS = {
+    b'APPEND': b' INBOX {N}', b'AUTHENTICATE': b' PLAIN', b'COPY': b' 1:2 Other', b'CREATE': b' x', b'DELETE': b' x',
+    b'EXAMINE': b' INBOX', b'FETCH': b' 1 (FLAGS BODY[HEADER.FIELDS (to)])', b'ID': b' NIL', b'LIST': b' "" *',
+    b'LOGIN': b' u {N}', b'LSUB': b' "" *', b'MOVE': b' 1 Other', b'RENAME': b' a b', b'SEARCH': b' OR SEEN subject x',
+    b'SELECT': b' INBOX', b'STATUS': b' INBOX (MESSAGES)', b'STORE': b' 1 +flags (\\Seen)', b'SUBSCRIBE': b' x',
+    b'UID COPY': b' 1:2 Other', b'UID EXPUNGE': b' 1', b'UID FETCH': b' 1 (FLAGS)', b'UID MOVE': b' 1 Other',
+    b'UID SEARCH': b' ALL', b'UID STORE': b' 1 flags ()', b'UNSUBSCRIBE': b' x',
+}
+
+
+def _cmd_summary(g, parse, line):
+    """(kind, comparable form) of parsing one line"""
+    try:
+        cmd, rest = parse(line)
+    except g['ParsingInterrupt']:
+        return ('interrupt', None)
+    name = type(cmd).__name__
+    if name == 'InvalidCommand':
+        code = getattr(getattr(cmd, 'parse_exc', None), 'code', None) or getattr(cmd, 'code', None)
+        return ('invalid', bytes(code) if code is not None else None)
+    return (name, len(rest))
+
+
+def cmdcase_line(word, variant_items, n_items):
+    args = CASE_ARGS.get(word, b'')
+    out = list(b'a ') + list(variant_items)
+    for part in [args]:
+        i = part.find(b'{N}')
+        if i < 0:
+            out += list(part)
+        else:
+            out += list(part[:i]) + [123] + list(n_items) + [125] + list(part[i + 3:])
+    return out + [13, 10]
+
+
+def _h_cmdcase_all(word):
+    """letter case of any command word is irrelevant, also for what depends on the command (literal size limits)"""
+    def fn(eng):
+        from pysymex import SymBytes, SymInt, B, AND, Outcome
+        from pysymex.symbytes import render_int
+        import z3
+        letters = [i for i, c in enumerate(word) if 65 <= c <= 90]
+        bits = {i: eng.fresh_bool('lo%d' % i) for i in letters}
+        items = [SymInt(z3.If(bits[i].t, c + 32, c)) if i in bits else c for i, c in enumerate(word)]
+        uses_n = b'{N}' in CASE_ARGS.get(word, b'')
+        n = eng.fresh_int('n', 0, 9999999) if uses_n else None
+        nit = list(render_int(n, 7)) if uses_n else []
+        parse = lambda ln: _g['Commands']().parse(SymBytes(ln, 'memoryview'), _g['Params'](max_append_len=100000))  # noqa: E731
+        ref = _cmd_summary(_g, parse, cmdcase_line(word, list(word), nit))
+        got = _cmd_summary(_g, parse, cmdcase_line(word, items, nit))
+        wit = lambda m: {'word': word.decode(), 'variant': bytes(SymBytes(items, 'bytes').eval(m)).decode('latin-1'),  # noqa: E731
+                         'n': None if n is None else n.eval(m)}
+        return Outcome(ref == got, witness=wit, info='%r vs %r' % (ref, got))
+    return fn
+
+
 def _h_mailbox(n, ascii_only=True, hi=0x10FFFF):
     def fn(eng):
         from pysymex import fresh_str, B, AND, Outcome
@@ -391,6 +449,11 @@ def harnesses(tier):
                       replay='connspell', task_budget=20))
     hs.append(Harness('command_case', _h_cmdcase(), {'word': 'SELECT, 2^6 case patterns as 6 symbolic bits'},
                       replay='cmdcase'))
+    for word in sorted(_g['Commands']().commands.keys()):
+        hs.append(Harness('command_case[%s]' % word.decode(), _h_cmdcase_all(word),
+                          {'word': word.decode(), 'case': 'one symbolic bit per letter',
+                           'literal_size': 'symbolic 0..9999999' if b'{N}' in CASE_ARGS.get(word, b'') else None},
+                          replay='cmdcaseall'))
     for n in range(0, (4 if q else 6) + 1):
         hs.append(Harness('mailbox_roundtrip_ascii[len=%d]' % n, _h_mailbox(n), {'name_len': n, 'code_points': '0x20..0x7e'},
                           replay='mailbox'))
@@ -475,6 +538,15 @@ def replay(harness, w):
         err = conn_spellings(g, list(v), has_crlf, is_atom, lambda items: bytes(items), w.get('role', 'user'))
         if err:
             bad.append(err)
+    elif harness == 'cmdcaseall':
+        word = w['word'].encode()
+        g = {'ParsingInterrupt': ParsingInterrupt}
+        nit = list(b'%d' % w['n']) if w['n'] is not None else []
+        parse = lambda ln: Commands().parse(memoryview(bytes(ln)), Params(max_append_len=100000))  # noqa: E731
+        ref = _cmd_summary(g, parse, cmdcase_line(word, list(word), nit))
+        got = _cmd_summary(g, parse, cmdcase_line(word, list(w['variant'].encode('latin-1')), nit))
+        if ref != got:
+            bad.append('%s parses to %r, %s to %r' % (w['word'], ref, w['variant'], got))
     elif harness == 'cmdcase':
         line = bytes.fromhex(w['line'])
         cmd, rest = Commands().parse(memoryview(line), Params())
